@@ -36,7 +36,7 @@ pub struct HistRun {
 	pub counters: Counters,
 }
 
-pub fn run_history(h: &[Op], fx: &Fixtures, proto: Option<&SchemaMut>) -> HistRun {
+pub fn run_history(h: &[Op], fx: &Fixtures, proto: Option<&crate::fixtures::Protos>) -> HistRun {
 	let mut w = World::new(fx, proto);
 	for op in h {
 		w.apply(*op);
@@ -56,7 +56,7 @@ impl RefCache {
 		RefCache { map: HashMap::new(), runs: 0, hits: 0 }
 	}
 	/// Result of operation `idx` of `h` in a fresh run of its dependency cone.
-	pub fn reference(&mut self, h: &[Op], idx: usize, fx: &Fixtures, proto: Option<&SchemaMut>) -> String {
+	pub fn reference(&mut self, h: &[Op], idx: usize, fx: &Fixtures, proto: Option<&crate::fixtures::Protos>) -> String {
 		let c = ops::cone(h, idx);
 		if let Some(r) = self.map.get(&c) {
 			self.hits += 1;
@@ -86,7 +86,7 @@ pub fn hashes_of(results: &[String]) -> Vec<u64> {
 }
 
 /// Execute one history and apply the oracles that live inside the interpreter.
-pub fn check_history(h: &[Op], fx: &Fixtures, proto: Option<&SchemaMut>, mode: RefMode, given: Option<&[u64]>, cache: &mut RefCache, totals: &mut Counters) -> Verdict {
+pub fn check_history(h: &[Op], fx: &Fixtures, proto: Option<&crate::fixtures::Protos>, mode: RefMode, given: Option<&[u64]>, cache: &mut RefCache, totals: &mut Counters) -> Verdict {
 	let run = run_history(h, fx, proto);
 	totals.add(&run.counters);
 	if let Some(f) = run.findings.first() {
@@ -197,14 +197,14 @@ struct ThreadEnv {
 	reference: Vec<(TOp, String)>,
 }
 
-fn fresh_schema(proto: Option<&SchemaMut>) -> Schema {
+fn fresh_schema(proto: Option<&crate::fixtures::Protos>) -> Schema {
 	match proto {
-		Some(p) => p.clone().freeze().expect("fixture schema freezes"),
+		Some(p) => p.get(0).expect("fixture schema parses").freeze().expect("fixture schema freezes"),
 		None => crate::fixtures::SCHEMA_TEXT.parse().expect("fixture schema parses"),
 	}
 }
 
-pub fn check_thread_case(c: &ThreadCase, fx: &Fixtures, proto: Option<&SchemaMut>, env: &mut Option<ThreadEnvBox>) -> Verdict {
+pub fn check_thread_case(c: &ThreadCase, fx: &Fixtures, proto: Option<&crate::fixtures::Protos>, env: &mut Option<ThreadEnvBox>) -> Verdict {
 	if env.is_none() {
 		let shared = fresh_schema(proto);
 		let reference = threads::sequential_reference(&shared, &fx.datum);
@@ -256,6 +256,21 @@ pub fn cli_main(args: &[String]) -> i32 {
 			println!("{} per depth {:?} total {}", p.name, c, c.iter().sum::<u64>());
 			0
 		}
+		// debugging aid: node structure of a schema text, and whether it freezes
+		"nodes" => {
+			let Some(text) = args.get(1) else { return usage() };
+			match text.parse::<SchemaMut>() {
+				Ok(m) => {
+					println!("{:?}", crate::fixtures::keys_of(&m));
+					for (i, n) in m.nodes().iter().enumerate() {
+						println!("  {i}: {:?}", n);
+					}
+					println!("freeze: {:?}", m.freeze().map(|s| s.json().to_owned()).map_err(|e| e.to_string()));
+				}
+				Err(e) => println!("parse error: {e}"),
+			}
+			0
+		}
 		"sweep" => {
 			// sweep <profile> <depth> <unit-lo> <unit-hi> [--verbose] [--nt-file PATH]
 			let (Some(mut p), Some(depth), Some(lo), Some(hi)) = (
@@ -270,7 +285,8 @@ pub fn cli_main(args: &[String]) -> i32 {
 			let verbose = args.iter().any(|a| a == "--verbose");
 			let nt_file = args.iter().position(|a| a == "--nt-file").and_then(|i| args.get(i + 1)).cloned();
 			let fx_file = args.iter().position(|a| a == "--fixtures").and_then(|i| args.get(i + 1)).cloned();
-			sweep(&p, lo, hi, verbose, nt_file.as_deref(), fx_file.as_deref())
+			let inflight = args.iter().position(|a| a == "--inflight").and_then(|i| args.get(i + 1)).cloned();
+			sweep(&p, lo, hi, verbose, nt_file.as_deref(), fx_file.as_deref(), inflight.as_deref())
 		}
 		"exec" => {
 			let Some(path) = args.get(1) else { return usage() };
@@ -333,12 +349,23 @@ struct Sweep<'a> {
 	outcomes: std::collections::HashSet<u64>,
 	shapes: std::collections::HashSet<ops::Abs>,
 	nt: Option<std::io::BufWriter<std::fs::File>>,
+	/// the history being executed is written here first (64 bytes at offset 0), so that a crash of this
+	/// process is attributed to it without having to reproduce the crash
+	inflight: Option<std::fs::File>,
 }
 
 impl Sweep<'_> {
 	fn run_one(&mut self, h: &[Op], abs: &ops::Abs) {
 		let out = std::io::stdout();
 		let token = ops::history_token(h);
+		if let Some(f) = self.inflight.as_ref() {
+			use std::os::unix::fs::FileExt;
+			let mut buf = [b' '; 64];
+			let n = token.len().min(63);
+			buf[..n].copy_from_slice(&token.as_bytes()[..n]);
+			buf[63] = b'\n';
+			let _ = f.write_all_at(&buf, 0);
+		}
 		if self.verbose {
 			let mut o = out.lock();
 			let _ = writeln!(o, "B {token}");
@@ -395,7 +422,7 @@ fn load_fixtures(path: &str) -> Result<Fixtures, String> {
 	Ok(fx)
 }
 
-fn sweep(p: &ops::Profile, lo: usize, hi: usize, verbose: bool, nt_file: Option<&str>, fx_file: Option<&str>) -> i32 {
+fn sweep(p: &ops::Profile, lo: usize, hi: usize, verbose: bool, nt_file: Option<&str>, fx_file: Option<&str>, inflight: Option<&str>) -> i32 {
 	let fx = match fx_file.map(load_fixtures).unwrap_or_else(Fixtures::generate) {
 		Ok(f) => f,
 		Err(e) => {
@@ -433,6 +460,7 @@ fn sweep(p: &ops::Profile, lo: usize, hi: usize, verbose: bool, nt_file: Option<
 		outcomes: Default::default(),
 		shapes: Default::default(),
 		nt,
+		inflight: inflight.and_then(|f| std::fs::File::create(f).ok()),
 	};
 	for u in units.iter().take(hi.min(units.len())).skip(lo) {
 		let abs = ops::admissible(u).expect("units are admissible");
@@ -486,17 +514,7 @@ fn exec_batch(path: &str, mode: RefMode, use_proto: bool, deadline_ms: Option<u1
 		eprintln!("MACHINERY: batch file has no datum fixture");
 		return 2;
 	}
-	let proto: Option<SchemaMut> = if use_proto {
-		match crate::fixtures::SCHEMA_TEXT.parse::<SchemaMut>() {
-			Ok(m) => Some(m),
-			Err(e) => {
-				eprintln!("MACHINERY: fixture schema does not parse: {e}");
-				return 2;
-			}
-		}
-	} else {
-		None
-	};
+	let proto: Option<crate::fixtures::Protos> = if use_proto { Some(crate::fixtures::Protos::new()) } else { None };
 	let out = std::io::stdout();
 	let mut cache = RefCache::new();
 	let mut totals = Counters::default();
